@@ -151,6 +151,19 @@ pub fn run_cross_descriptors(seed: u64, per_case: usize, out: &mut dyn Write) {
     }
 }
 
+/// C06: every boundary value of every type under known spellings, through both codecs; independent of the seed.
+pub fn run_cross_boundary(k: usize, out: &mut dyn Write) {
+    std::panic::set_hook(Box::new(|_| {}));
+    let known = gen::known_props(rbx_reflection_database::get());
+    for (label, dom) in gen::boundary_doms(&gen::BINARY_TYPES, &known, true, k, false, 6) {
+        let roots: Vec<Ref> = dom.root().children().to_vec();
+        let ev = json!({"ep": format!("crossbound:{}", label), "op": "cross_case", "before": pforest(&dom, &roots),
+                        "bin": bin_trip(&dom, &roots), "xml": xml_trip(&dom, &roots, "IgnoreUnknown", "IgnoreUnknown")});
+        serde_json::to_writer(&mut *out, &ev).unwrap();
+        out.write_all(b"\n").unwrap();
+    }
+}
+
 fn empty_db() -> ReflectionDatabase<'static> {
     ReflectionDatabase::new()
 }
